@@ -4,6 +4,6 @@ MaxDepth = 2
 DocMode = TRUE
 Vocab <- VocabDoc
 TextKinds <- TK3
-OptSets <- AllOpts
+OptSets <- Opts4
 INVARIANTS BuilderSound DesignRefines Emit
 CHECK_DEADLOCK FALSE
